@@ -210,6 +210,51 @@ func C08(p *core.Program, r *core.Report) {
 	r.Count("acknowledged-without-storing returns in Push", nIgn)
 	r.Min("acknowledged-without-storing returns in Push", 2)
 
+	// Push: the part files removed when a whole bundle supersedes its fragments are those of the superseded parts.
+	// The list that is iterated for removal must not share its backing array with the list written into the record
+	// (an in-place rewrite `append(old[:0], new...)` overwrites the entries that are about to be removed: the new
+	// part's file is deleted, a fragment's file is orphaned).
+	nRm := 0
+	for _, dc := range core.CallsTo(push, storagePkg+".BundlePart.deleteBundle") {
+		nRm++
+		// the slice the loop walks: receiver is an element (load of IndexAddr) of it
+		var walked ssa.Value
+		recv := core.CallRecv(dc)
+		if ld, ok := recv.(*ssa.UnOp); ok {
+			if ia, ok := ld.X.(*ssa.IndexAddr); ok {
+				walked = ia.X
+			}
+		}
+		if walked == nil {
+			// range value copied into a local first
+			core.DependsOn(recv, func(v ssa.Value) bool {
+				if ia, ok := v.(*ssa.IndexAddr); ok && walked == nil {
+					walked = ia.X
+				}
+				return false
+			})
+		}
+		okAlias, why := walked != nil, "the list walked for removal could not be identified"
+		if walked != nil {
+			core.EachInstr(push, func(in ssa.Instruction) {
+				st, ok := in.(*ssa.Store)
+				if !ok || !core.IsField(st.Addr, storagePkg, "BundleItem", "Parts") {
+					return
+				}
+				if !reaches(st, dc) {
+					return
+				}
+				if sharesBacking(st.Val, func(v ssa.Value) bool { return v == walked || core.SameLoad(v, walked) }, 0) {
+					okAlias = false
+					why = "the record's Parts are rewritten in place (" + p.Pos(st.Pos()) + ") over the backing array of the list that is then walked to remove the superseded files"
+				}
+			})
+		}
+		r.Check(okAlias, fmt.Sprintf("store/%s/removed-parts-not-overwritten#%d", fname(push), nRm), "the list of superseded parts whose files are removed does not share its backing array with the list written into the record before", p.Pos(dc.Pos()), "", why)
+	}
+	r.Count("part-file removals in Push", nRm)
+	r.Min("part-file removals in Push", 1)
+
 	// Load agrees with IsComplete: a record that is not fragmented is complete and is loaded directly
 	// (ReassembleFragments refuses bundles that are not fragments)
 	ldFn := p.Func(storagePkg, "BundleItem", "Load")
